@@ -220,24 +220,30 @@ namespace
     static_assert(output_buf_size <= std::numeric_limits<decltype(stream.avail_out)>::max());
 
     zerr = Z_OK;
-    while (zerr != Z_STREAM_END)
+    avail_in_type got = 0;
+    stream.avail_in = 0;
+    bool done = false;
+    while (!done)
       {
-	errno = 0;
-	auto got = stream.avail_in = static_cast<avail_in_type>(fread(input_buffer, 1, input_buf_size, f));
-	if (ferror(f))
+	if (stream.avail_in == 0)
 	  {
-	    throw DFS::FileIOError(name, errno);
+	    errno = 0;
+	    got = stream.avail_in = static_cast<avail_in_type>(fread(input_buffer, 1, input_buf_size, f));
+	    if (ferror(f))
+	      {
+		throw DFS::FileIOError(name, errno);
+	      }
+	    // We rely on zlib to detect the end of the input stream.  If
+	    // there is no more input here we will pass avail_in=0 to
+	    // inflate() which tells it there is no more input.  If that
+	    // means the input is incomplete, it will return zerr != Z_OK
+	    // and we will issue a diagnostic.  However, if we were
+	    // reading a file compressed with compress(1) (e.g. foo.ssd.Z)
+	    // then we might have to recognise the end of the input stream
+	    // with physical EOF.   I don't think it's possible to identify
+	    // when a foo.Z file has been truncated.
+	    stream.next_in = input_buffer;
 	  }
-	// We rely on zlib to detect the end of the input stream.  If
-	// there is no more input here we will pass avail_in=0 to
-	// inflate() which tells it there is no more input.  If that
-	// means the input is incomplete, it will return zerr != Z_OK
-	// and we will issue a diagnostic.  However, if we were
-	// reading a file compressed with compress(1) (e.g. foo.ssd.Z)
-	// then we might have to recognise the end of the input stream
-	// with physical EOF.   I don't think it's possible to identify
-	// when a foo.Z file has been truncated.
-	stream.next_in = input_buffer;
 	do  // decompress some data from the input buffer.
 	  {
 	    stream.next_out = output_buffer;
@@ -253,8 +259,34 @@ namespace
 		// Want more input data.
 		break;
 	      }
-	    if (zerr != Z_STREAM_END)
-	      check_zlib_error_code(zerr);
+	    if (zerr == Z_STREAM_END)
+	      {
+		// End of a gzip member.  A gzip file may consist of
+		// several members (RFC 1952 section 2.2, e.g. the
+		// output of "cat a.gz b.gz"); the data is then the
+		// concatenation of the members' data.  Anything else
+		// after the end of a member is ignored, as before.
+		if (stream.avail_in == 0)
+		  {
+		    const int next = fgetc(f);
+		    if (next != EOF)
+		      ungetc(next, f);
+		    if (next != 0x1F)
+		      {
+			done = true;
+			break;
+		      }
+		  }
+		else if (stream.next_in[0] != 0x1F)
+		  {
+		    done = true;
+		    break;
+		  }
+		check_zlib_error_code(inflateReset(&stream));
+		zerr = Z_OK;
+		break;		// refill the input buffer if necessary
+	      }
+	    check_zlib_error_code(zerr);
 	  }
 	while (stream.avail_out == 0);
       }
